@@ -4,6 +4,7 @@ mod c01;
 mod c07;
 mod c08;
 mod c13;
+mod c14;
 mod glue;
 mod refcodec;
 mod refmsg;
@@ -13,5 +14,5 @@ mod vgen;
 static ALLOC: alloc::Counting = alloc::Counting;
 
 fn main() {
-    vcommon::main(&[&c01::DEF, &c07::DEF, &c08::DEF, &c13::DEF])
+    vcommon::main(&[&c01::DEF, &c07::DEF, &c08::DEF, &c13::DEF, &c14::DEF])
 }
